@@ -160,10 +160,6 @@ func (r *runner) instantiate(s Step) string {
 		switch {
 		case p.elemOOB >= 0:
 			r.res.excluded = "out-of-bounds active element segment (finding " + findOOBElem + ")"
-		case tmpExcludeSharedElemBeforeFailingData && r.m.postLinkStage(p) == "data" && p.elemShared:
-			r.res.excluded = "element segment into an imported table before a failing data segment (finding " + findDataFirst + ")"
-		case p.aliasMut:
-			r.res.excluded = "one mutable global imported under two indices (finding " + findAliasGlobal + ")"
 		case len(p.nullOver) > 0:
 			r.res.excluded = "null item of an active element segment over a non-null slot (finding " + findNullItem + ")"
 		}
@@ -207,6 +203,9 @@ func (r *runner) instantiate(s Step) string {
 		r.m.commit(p, "ok")
 		r.mods[s.As] = mod
 		r.res.labels["inst:accepted"]++
+		if p.aliasMut {
+			r.res.labels["inst:accepted-with-one-mutable-global-imported-twice"]++
+		}
 		if !p.wzCompat {
 			r.res.labels["inst:accepted-beyond-documented-rule"]++
 		}
@@ -541,6 +540,9 @@ func record(c *Case, results []*runResult) {
 			lbls = append(lbls, "case:shared-"+n)
 		}
 	}
+	if m.lookupImp > 0 {
+		lbls = append(lbls, "case:host-lookup-of-reference-made-from-imported-function")
+	}
 	lbls = append(lbls, fmt.Sprintf("case:live-instances=%d", len(m.order)))
 	evid.Case(c.key(), nontrivial, lbls...)
 	if nontrivial && evid.WantSample("graph", 3) {
@@ -576,11 +578,6 @@ const (
 	findAliasGlobal = "C04-compiler-aliased-imported-globals"
 	findLookupImp   = "C04-lookup-imported-funcref"
 )
-
-// tmpExcludeSharedElemBeforeFailingData: while the repair of C04-data-oob-skips-elems is
-// incomplete (compiler: the failed instance's functions escape before its module context is
-// set up; calling them kills the process) the class stays excluded.
-const tmpExcludeSharedElemBeforeFailingData = true
 
 func knownCases() map[string]*Case {
 	fr := wasmenc.FuncRef
